@@ -7,7 +7,10 @@ use crate::topics::topic_manager::TopicManagerDelegate;
 use crate::topics::{TopicMessage, TopicName};
 use std::cmp::Ordering;
 use std::sync::Arc;
+#[cfg(not(deltio_verif))]
 use tokio::sync::{mpsc, oneshot};
+#[cfg(deltio_verif)]
+use {crate::verif::mpsc, tokio::sync::oneshot};
 
 /// The `Topic` that we interact with.
 /// Any mutable state is kept within the actor.
